@@ -12,6 +12,8 @@
 import Proofs.Lemmas.FxOps
 import Proofs.Lemmas.FxOld
 import Proofs.Lemmas.FxProg
+import Proofs.Lemmas.WalkFrame
+import Proofs.Lemmas.WalkAlt
 
 namespace Xsel.C13
 open Xsel Xsel.Effects
@@ -129,5 +131,31 @@ theorem run_ops_value (h : Heap) (av : List Slice) (ps : List Step) (p : Step) (
 theorem run_ops_valid (h : Heap) (av : List Slice) (ps : List Step) (hav : ∀ s ∈ av, s.valid h) :
     ∀ s ∈ (runProg h av ps).2, s.valid (runProg h av ps).1 :=
   runProg_valid h av ps hav
+
+/-! ## the handler layer writes nothing but the result
+
+`exec.Exec` threads ONE mutable `exprContext` through the handlers of a query.  In the model of that layer
+(`Xsel/Walk.lean`) this is the statement that the context the caller gets back — and with it the document,
+the binding maps, the context position and the context size — is untouched by any handler, for every parse
+forest and every handler table: handlers write `result` and the principal node type, sub-evaluations that
+need another context node work on copies. -/
+
+/-- **handler_walk_frame** — for EVERY tree, EVERY handler table and every context: after a successful walk
+    the document, the bindings, the context position and the context size are the ones the walk started with -/
+theorem handler_walk_frame (tb : List (String × String)) (t : Walk.PT) (w w' : Walk.WCtx)
+    (h : Walk.walk tb t w = .ok w') :
+    w'.c.a = w.c.a ∧ w'.c.env = w.c.env ∧ w'.c.pos = w.c.pos ∧ w'.c.size = w.c.size :=
+  Walk.walk_frame tb t w w' h
+
+/-- **order_of_alternatives_irrelevant** — "BuildExpr of the same string always yields an equivalent query": the
+    one place where the generated parser can hand the evaluator two different trees for one string is the
+    function call at the head of a path; both trees evaluate to the same outcome (`Walk.alternatives_agree`) -/
+theorem order_of_alternatives_irrelevant (e : Expr) (hp : Walk.isPathLike e = true) (p : Option Chars) (n : Chars)
+    (as : Exprs)
+    (hhead : (Walk.dRel e).1 = .filt (Walk.N "FilterExpr" [Walk.N "PrimaryExpr" [Walk.dCall p n as]]))
+    (hq : Walk.qnOk p n = true) (hall : Walk.walkOks as = true) (w : Walk.WCtx) :
+    (Walk.walk Expect.handlers (Walk.dNat e) w).map Walk.WCtx.res =
+      (Walk.walk Expect.handlers (Walk.altPath p n as e) w).map Walk.WCtx.res :=
+  (Walk.alternatives_agree e hp p n as hhead hq hall w).2
 
 end Xsel.C13
